@@ -507,6 +507,10 @@ impl MaTreeNode {
         else {
             return None;
         };
+        // Thresholds are offset by one below, which must not overflow.
+        if value == i32::MIN || value == i32::MAX {
+            return None;
+        }
 
         let mut lower_bound = value;
         let mut upper_bound = value;
@@ -523,7 +527,9 @@ impl MaTreeNode {
                     value,
                     ref left,
                     ref right,
-                } if target_property == property => (value, left, right),
+                } if target_property == property && value != i32::MIN && value != i32::MAX => {
+                    (value, left, right)
+                }
                 _ => {
                     range_nodes.push((node, *range.end()));
                     continue;
